@@ -11,7 +11,8 @@ EXPLANATION = (
     '`with <registry lock>` and no yield happens while the lock is held; R3 registration is dominated by the successful '
     '_start() and a not-dead guard, register_child is idempotent and restarted workers are not excluded (pruning drops dead '
     'workers, so a restarted one must be able to come back); R4 autoclose_active_children runs close -> wait -> terminate for '
-    'every yielded child inside a finally block.')
+    'every yielded child inside a finally block.'
+    ' R3 also: the flags every is_alive() reads first (_started, _dead) are assigned on every path of Worker.__init__ to _start(): restart() re-initialises an object that is still registered, and a failed _start() must leave a worker the pruning sees as dead, not one whose is_alive() raises; no method constructs a second instance of its own class; the registry attribute is rebound only on the defining class.')
 TECHNIQUE = 'def-use on class attributes, lock-scope check, CFG dominance'
 
 
